@@ -49,13 +49,13 @@ def handle : Wire.Handler := fun op a => do
     let x ← Wire.getNat a "a"
     let y ← Wire.getNat a "b"
     let o ← HeapWire.getOpt a
-    pure (HeapWire.result h [x, y] (Heap.mergeContainers o h x y))
+    HeapWire.result a h [x, y] (Heap.mergeContainers o h x y) [("writes", "afterWrites")] true
   | "heapMergeAll" =>
     -- OverlayDocument.Merged: fold over the layer roots from a new empty container
     let h ← HeapWire.getHeap a
     let ls ← HeapWire.getAddrs a "layers"
     let o ← HeapWire.getOpt a
-    pure (HeapWire.result h ls (Heap.mergeAll o h ls))
+    HeapWire.result a h ls (Heap.mergeAll o h ls) [("writes", "afterWrites")] true
   | _ => throw s!"C04: unknown op {op}"
 
 end Ytk.C04
